@@ -283,3 +283,33 @@ _amend('C15', 'note', 'Not decided: meshgrid bookkeeping, ndim >= 3, outside the
        'Nearest interpolation outside the hull of the nodes is under contract. Not decided: linear interpolation outside the hull, meshgrid bookkeeping, ndim >= 3')
 _amend('C20', 'note', 'Not under contract: element() factories',
        'ProductSpace.element for sequences of proper elements (length check, parts, membership of the result) is under contract. Not under contract: the other element() factories')
+
+
+# ---- session 3 additions (appended to the notes / techniques; DESIGN.md section 4 has the details)
+def _append(pid, field, text):
+    PROPS[pid][field] = PROPS[pid][field].rstrip() + ' ' + text
+
+
+_append('C01', 'note', 'Added: product spaces (ProductSpace._lincomb/_multiply/_divide/zero/one and the broadcasting dunders as installed by the module-level loop, executed down to the component contracts; '
+        'nesting by structural induction) and the DiscretizedSpace delegations are under contract. Not decided: a broadcast operand that is a part of the left operand (overlap of distinct operands).')
+_append('C02', 'note', 'Added: the is_uniformly_weighted flag of DiscretizedSpace and product-space norms over integer-dtype components are under contract.')
+_append('C03', 'note', 'Added: in non-aliased call forms no operand of an expression class is evaluated with its output aliased to its input; the bounded pool holds ~50 operators.')
+_append('C04', 'note', 'Added: nested vector sums; building an expression does not write to the caller\'s vectors (snapshot before construction).')
+_append('C05', 'note', 'Added (deductive): ProductSpaceOperator / Broadcast / Reduction / DiagonalOperator.adjoint and ComponentProjection(Adjoint) by constructor-argument claims over abstract blocks '
+        '(with the C03 call contract this is the adjoint in the unweighted product spaces the constructors accept); ResizingOperator forward / adjoint / adjoint.adjoint resize_array call claims for 5 pad modes x 8 shape pairs.')
+_append('C06', 'note', 'Added (deductive): ProductSpaceOperator / Broadcast / Reduction / DiagonalOperator.derivative (block k is the derivative of block k at the component named by its column), PointwiseNorm._call for exponents 1, 2, inf.')
+_append('C07', 'note', 'Added (deductive): group proximals proximal_l1_l2 / proximal_convex_conj_l1_l2 on weighted power spaces (closed form in the weighted pointwise norm + z3 KKT lemma), SeparableSum.proximal through the real '
+        'combine_proximals. Added (BOUNDED, never counted as proved): minimiser probes for 130 built-in functional x space instances (contracts/funcpool.py) - 1 defect repaired, 3 open findings.')
+_append('C07', 'technique', '; bounded native objective probes for the sort / SVD / group-norm based built-ins, labelled bounded')
+_append('C08', 'note', 'Added (deductive): SeparableSum.convex_conj. Added (BOUNDED): Fenchel-Young / biconjugate / Moreau for the functional pool - 1 defect repaired (QuadraticForm.convex_conj), 1 open finding.')
+_append('C08', 'technique', '; bounded native Fenchel-Young / Moreau checks for built-in pairs, labelled bounded')
+_append('C09', 'note', 'Added (deductive): Huber.gradient on weighted power spaces, SeparableSum value / gradient. Added (BOUNDED): gradient vs central differences for the functional pool.')
+_append('C11', 'note', 'Added: Python lists handed to a solver (sensitivities, step sizes, operators, data) keep their objects and contents.')
+_append('C13', 'note', 'Added (deductive): _call of Laplacian / PartialDerivative / Divergence on a 1-d domain of symbolic length against separately computed finite_diff references. Added (BOUNDED): short axes 2-7 natively for all methods x pad modes.')
+_append('C14', 'note', 'Added (deductive): insert / append of IntervalProd, RectGrid, RectPartition (axes of set and grid stay aligned). Added (BOUNDED): slices / index lists / byaxis / squeeze / insert on the native partition pool.')
+_append('C15', 'note', 'Added (BOUNDED): interpolation over memory layouts of the node values (C / F / transposed / strided) and Resampling between spaces of equal shape with different node placement.')
+_append('C16', 'note', 'Added (BOUNDED): adjoint == transpose on every basis vector for arrays with 3-4 axes; the padding constant is stored in the dtype of the range.')
+_append('C17', 'note', 'Added (deductive): the legacy product-space ufunc wrappers (wrap_ufunc_productspace); element(arr) shares memory with every writeable strided view (symbolic strides of either sign).')
+_append('C18', 'note', 'Added (deductive): prepared FFTW plans - the contract of pyfftw_call executes a supplied plan as planned, init_fftw_plan followed by calls must equal the numpy back-end.')
+_append('C19', 'note', 'Added (BOUNDED): mirror-image volumes get mirror-image detectors from the 3-d factories; a volume never gets a shorter detector than a sub-volume.')
+_append('C20', 'note', 'Added (deductive): DiscretizedSpace.byaxis_in (class / shape / dtype / exponent / cell-volume weighting of the sub-space).')
